@@ -121,6 +121,11 @@ func sceneGenesis(o ReqOpts) {
 	rc, found := k.GetRequestContext(ctx, id)
 	chk("C19", vf.All(found, rc.State == types.PAUSED, rc.BatchState == types.BATCHCOMPLETED, rc.BatchRequestCount == 0, rc.BatchResponseCount == 0), "contexts-paused-with-no-batch-in-flight")
 
+	// what a context is (service, consumer, input, modes, owning module, providers, counter) is not touched by the reset
+	y0, fy0 := k.GetRequestContext(ctx, id2)
+	chk("C09 C19", vf.All(found, fy0, immutableCtx(s.Pre, rc), immutableCtx(rc2pre, y0), sameAddrs(rc.Providers, s.Pre.Providers), sameAddrs(y0.Providers, rc2pre.Providers),
+		rc.BatchCounter == s.Pre.BatchCounter, y0.BatchCounter == rc2pre.BatchCounter, sameCoins(rc.ServiceFeeCap, s.Pre.ServiceFeeCap), sameCoins(y0.ServiceFeeCap, rc2pre.ServiceFeeCap)), "zero-height-preparation-keeps-what-a-context-is")
+
 	gs := service.ExportGenesis(ctx, k)
 	chk("C19", types.ValidateGenesis(*gs) == nil, "exported-genesis-validates")
 	chk("C19 C17", sameParams(gs.Params, vf.Params(ctx)), "export-carries-the-stored-parameters")
